@@ -293,7 +293,7 @@ class ExprMixin:
                     return ("z3", "BoolRef")
             if isinstance(f, ast.Name) and f.id in self.project.classes:
                 return ("cls", f.id)
-            return None
+            return ("prim", "any")
         if isinstance(v, ast.List):
             return ("list", ("prim", "any"))
         if isinstance(v, ast.ListComp):
@@ -359,10 +359,10 @@ class ExprMixin:
         fi = self._field_of(leaf)
         if fi is not None:
             d.can_none = fi.may_be_none()
+        elif leaf[0] == "sym":
+            d.can_none = leaf[1] != "self"      # python does not enforce parameter annotations
         elif ty is not None:
             d.can_none = P.type_allows_none(ty)
-        elif leaf[0] == "sym":
-            d.can_none = True
         if ty is not None:
             alts = [a for a in P.type_alternatives(ty) if a != ("none",)]
             if alts and all(a[0] == "literal" for a in alts):
